@@ -41,8 +41,14 @@ def workdir(prop):
     return d
 
 
+_replay_cleaned = set()
+
+
 def replay_dir(prop):
     d = os.path.join(OUT, 'replay', prop)
+    if prop not in _replay_cleaned:
+        _replay_cleaned.add(prop)
+        shutil.rmtree(d, ignore_errors=True)
     os.makedirs(d, exist_ok=True)
     return d
 
